@@ -118,8 +118,20 @@ def run_frame(mods, c, partner, seed, kind, scenario, calls):
     model = mods['iroas'].TBRiROAS(use_cooldown=True)
     variant = base.semantic_variant(df)
     base.refit_prelude(model, df, iroas=True, variant=variant)
-    fdf, kw, _ = base.relabel(df, variant)
-    model.fit(fdf, **kw)
+    fdf, kw, resp_name = base.relabel(df, variant)
+    if len(df) % 4 == 1:
+      # the object was fitted on another frame; the caller then put in place two sub-models it fitted itself on the
+      # frame under test.  The reports describe the sub-models in place when they are asked for.
+      other = fdf.copy()
+      other[resp_name] = other[resp_name].astype(float) * 2.0 + 1.0
+      model.fit(other, **kw)
+      cost_name = kw.get('key_cost', 'cost')
+      tr, tc = mods['tbr'].TBR(use_cooldown=True), mods['tbr'].TBR(use_cooldown=True)
+      tr.fit(fdf, resp_name, **kw)
+      tc.fit(fdf, cost_name, **kw)
+      model.tbr_response, model.tbr_cost = tr, tc
+    else:
+      model.fit(fdf, **kw)
     fit_error = None
   except Exception as e:  # pylint: disable=broad-except
     fit_error = '%s: %s' % (type(e).__name__, e)
